@@ -11,7 +11,7 @@ use wow_wmo::{
     WmoDoodadDef, WmoDoodadSet, WmoFlags, WmoGroup, WmoGroupFlags, WmoGroupHeader, WmoGroupInfo,
     WmoGroupParser, WmoHeader, WmoLight, WmoLightProperties, WmoLightType, WmoLiquid,
     WmoLiquidVertex, WmoMaterial, WmoMaterialFlags, WmoParser, WmoPlane, WmoPortal,
-    WmoPortalReference, WmoRoot, WmoVersion, WmoWriter,
+    WmoEditor, WmoPortalReference, WmoRoot, WmoVersion, WmoWriter,
 };
 use wverif_common::*;
 
@@ -962,6 +962,15 @@ fn run_root(case: &str, c: &Value, lay: &Layout, seed: u64) -> Vec<Value> {
     want.dname = root.doodad_defs.iter().map(|_| "-".to_string()).collect();
     let mut body = Vec::new();
     body.push(json!({"ev":"Write","case":case,"kind":"root","res":wres,"len":bytes.len(),"tok":tok(&bytes)}));
+    // every public way of producing the bytes: the editor's save_root on an identical object
+    {
+        let mut g2 = Gen { rng: Rng::derive(seed, case), ctr: 0, xf: gi(c, "xf") == 1, bits: c.get("bits").and_then(|x| x.as_str()).unwrap_or("rand").to_string() };
+        let root2 = build_root(c, &mut g2);
+        let mut cur = Cursor::new(Vec::new());
+        let (ares, _) = outcome(guarded(|| WmoEditor::new(root2).save_root(&mut cur)));
+        let b = cur.into_inner();
+        body.push(json!({"ev":"AltWrite","case":case,"api":"editor.save_root","res":ares,"len":b.len(),"tok":tok(&b)}));
+    }
     let mut brk = String::new();
     if wres == "ok" {
         brk = layout_events(case, &bytes, lay, &lens, &want, &mut body);
@@ -1052,6 +1061,17 @@ fn run_conv(case: &str, c: &Value, seed: u64) -> Vec<Value> {
                 if let Some(p) = &parsed {
                     sec_events(case, "convparse", &tconv, &root_tokens(p), &mut evs);
                 }
+                // the editor's conversion path (what `wmo convert` uses): same object, convert_to_version + save_root
+                let mut g2 = Gen { rng: Rng::derive(seed, case), ctr: 0, xf: gi(c, "xf") == 1, bits: c.get("bits").and_then(|x| x.as_str()).unwrap_or("rand").to_string() };
+                let root2 = build_root(c, &mut g2);
+                let mut ed = WmoEditor::new(root2);
+                let (eres, _) = outcome(guarded(|| ed.convert_to_version(version_of(to))));
+                let mut cur = Cursor::new(Vec::new());
+                let (sres, _) = outcome(guarded(|| ed.save_root(&mut cur)));
+                let b = cur.into_inner();
+                let res = if eres == "ok" { sres } else { eres };
+                evs.push(json!({"ev":"AltWrite","case":case,"api":"editor.convert_to_version+save_root","res":res,"len":b.len(),"tok":tok(&b)}));
+                sec_events(case, "convert_editor", &tin, &root_tokens(ed.root()), &mut evs);
             }
         }
     } else {
